@@ -63,7 +63,8 @@ REQUIRED_COUNTERS = dict(
      ('overlap_hotfix_legacy_resolved_as_hotfix', 1),
      ('roundtrip_w', 10000), ('roundtrip_qw', 10000), ('roundtrip_q', 10),
      ('roundtrip_ghost', 1000), ('handle_commit_mapping', 10000),
-     ('roundtrip_hotfix_version', 1000)])
+     ('roundtrip_hotfix_version', 1000), ('c18w_cases', 20),
+     ('c18w_queue_names_checked', 10), ('c18w_merged_and_landed', 20)])
 SHARD_TIMEOUT = {'quick': 900, 'thorough': 3600}
 
 CLASS_KIND = {
@@ -778,6 +779,10 @@ def run_shard(spec, acc):
     limit = spec.get('limit')
     tok = tokens(seed)
     R = real()
+    if not only and not limit:
+        # system-level companion: the names round-trip through the repository
+        from vf.world import c18_world
+        c18_world.run(spec, acc)
     # -- part A ------------------------------------------------------------
     if only in (None, 'names'):
         seen = set()
@@ -819,6 +824,9 @@ def run_shard(spec, acc):
 
 
 def replay(w, acc):
+    if w.get('c18w'):
+        from vf.world import c18_world
+        return c18_world.replay(w, acc)
     R = real()
     if w.get('part') == 'name':
         check_name(w['name'], acc, R)
